@@ -1095,6 +1095,33 @@ class Storm:
             t.join(70.0)
         src = "%ss0" % pfx
         want = list(range(n))
+        # the member that PARTed in the flood (and read nothing meanwhile): what it was sent before leaving is a gapless
+        # prefix of the flood, and once it has read its own PART nothing more comes from the channel
+        for li, (c, how) in enumerate(zip(leave, hows)):
+            if how != "PART":
+                continue
+            me = "%sl%d" % (pfx, li)
+            try:
+                c.send("PRIVMSG %s :LEFT" % me)
+                lines = c.read_until(lambda m: m.verb == "PRIVMSG" and m.params[-1:] == ["LEFT"], 30.0)
+            except (wire.Closed, wire.Timeout, OSError) as ex:
+                self.bad("storm:quitflood-parted-lost", "the member that PARTed during the flood lost its connection (%s)"
+                         % type(ex).__name__)
+                continue
+            self.events += len(lines)
+            idx = [k for k, m in enumerate(lines) if m.verb == "PART" and (m.source or "").split("!")[0] == me]
+            seq = [int(m.params[-1].split()[1]) for m in lines if m.verb == "PRIVMSG" and m.params[-1].startswith("qf ")]
+            if len(idx) != 1:
+                self.bad("storm:quitflood-part-echo", "%s sent PART once and read %d confirmations" % (me, len(idx)))
+                continue
+            after = [m for m in lines[idx[0] + 1:] if m.verb == "PRIVMSG" and m.params[:1] == [chan]]
+            if after:
+                self.bad("storm:quitflood-after-part", "%s read its own PART of %s and then %d more channel messages (first: %s): "
+                         "no order of the commands has a former member receive them" % (me, chan, len(after), after[0].raw[:80]))
+            elif seq != list(range(len(seq))):
+                self.bad("storm:quitflood-part-prefix", "%s got %d messages before its PART took effect, not the first %d in "
+                         "order (%s...)" % (me, len(seq), len(seq), seq[:8]))
+            self.classes.add(("quitflood-parted", len(seq) == 0, len(seq) == n))
         for i in range(len(stay)):
             lines = got.get(i, [None])
             if lines and lines[-1] is None:
